@@ -93,7 +93,10 @@ def run_case(backend, case, tmpdir, n):
             steps.append([res] + views)
             if res[0] != 0:
                 break
-        final = [sh.ev_w(e) for e in bucket.get(-1)]
+        try:
+            final = [sh.ev_w(e) for e in bucket.get(-1)]
+        except Exception as ex:  # noqa: BLE001 -- e.g. a Bucket object bound to another Datastore's closed storage
+            final = {"raised": type(ex).__name__}
         reduced = [sh.ev_w(e) for e in heartbeat_reduce([sh.mk_ev(w) for w in case["stream"]], case["p"])]
         return {"steps": steps, "branches": branches, "before": befores, "final": final, "reduce": reduced}
     finally:
@@ -305,6 +308,8 @@ def oracle(case, run, backend, UNIV=UNIV):
         if len(changed) + len(new) > 1:
             return "step-shape", (f"heartbeat {k} {stream[k]} changed {len(changed)} and added {len(new)} events on "
                                   f"{backend} (expected at most one of the two)")
+    if isinstance(run["final"], dict):
+        return "raised", f"reading the bucket back after the loop (Bucket.get(-1)) raised {run['final']['raised']} on {backend}"
     if run["reduce"] is None:
         return None
     got = [w[1:] for w in reversed(run["final"])]
@@ -339,6 +344,8 @@ def oracle_lifecycle(case, res, backend, reduce_of):
         for b, vb, va in zip(univ, rec["first"], rec["last"]):
             if b != ph["b"] and vb != va:
                 return "other-bucket", f"the stream changed bucket {b} on {where}", k
+        if isinstance(rec["final"], dict):
+            return "raised", f"reading the bucket back after the loop (Bucket.get(-1)) raised {rec['final']['raised']} on {where}", k
         if expected is not None:
             got = [w[1:] for w in reversed(rec["final"])]
             want = [w[1:] for w in expected]
@@ -449,7 +456,11 @@ def main(argv=None):
 
     def replay_fails(case, be, sig):
         """a lifecycle case re-run on its own in a process forked from the pristine snapshot"""
+        if not c07_life.well_formed(case):
+            return False
         res = fresh.run((case, be))
+        if res.get("malformed"):
+            return False
         bad = oracle_lifecycle(case, res, be, reduce_of)
         return bad is not None and bad[0] == sig
     import time
@@ -459,7 +470,8 @@ def main(argv=None):
 
     runs = []
     life_runs = []
-    for case, res in zip(cases, results):
+    order = sorted(range(len(cases)), key=lambda i: cases[i]["kind"] == "lifecycle-large")   # findings on short inputs first
+    for case, res in ((cases[i], results[i]) for i in order):
         if case["kind"].startswith("lifecycle"):
             ck.count(case["kind"])
             ck.count("lifecycle:storage-objects=%d" % len(case["stores"]))
@@ -486,7 +498,7 @@ def main(argv=None):
                     if alone and len(ck.violations) < 3 and case["kind"] == "lifecycle":
                         small = shrink_lifecycle(case, be, lambda c: replay_fails(c, be, sig))
                         bad = oracle_lifecycle(small, fresh.run((small, be)), be, reduce_of) or bad
-                    ck.failing_input(f"C07:{be}:{sig}", bad[1],
+                    ck.failing_input(f"C07:{r['phases'][min(bad[2], len(r['phases']) - 1)]['backend']}:{sig}", bad[1],
                                      {"backend": be, "storage_objects": [be if s == "X" else c07_life.partner(be, s == "X2") for s in small["stores"]],
                                       "failing_phase": bad[2],
                                       "phases": [{"storage_object": ph["st"], "operations_issued_through": ph["via"],
